@@ -1694,6 +1694,75 @@ fn section_c2(run: &Run, seed: u64, rw_leaves: usize, n_programs: usize, budget_
 				}
 			}
 		}
+		// (c) one long-lived PMMR object, observed only at chosen moments: root() at size S, rewind, push
+		// DIFFERENT leaves back to exactly size S (and beyond / short of it) with no observation in
+		// between, then observe again. Anything the object remembers about an earlier state of the same
+		// size (or forgets to invalidate on rewind / push) shows here and nowhere else.
+		let mut ci = ti;
+		while ci < 4 * n_programs {
+			if dl.over() {
+				break;
+			}
+			let pseed = seed ^ 0xC2C ^ ((ci as u64) << 20);
+			let mut pr = Prng::new(pseed);
+			let mut be = VB::new();
+			let mut pm = PMMR::new(&mut be);
+			let mut cur: Vec<TestElem> = vec![];
+			let fresh = |pr: &mut Prng| TestElem([pr.next_u32(), pr.next_u32(), pr.next_u32(), pr.next_u32()]);
+			let n0 = pr.range(2, 70) as usize;
+			for _ in 0..n0 {
+				let e = fresh(&mut pr);
+				cur.push(e);
+				let _ = pm.push(&e);
+			}
+			let mut ops: Vec<Value> = vec![json!({"push": n0}), json!("observe")];
+			let mut ok = {
+				let r = RefMMR::from_elems(&cur, false);
+				let opsc = ops.clone();
+				let rp = move || json!({"section": "C2c", "program_seed": pseed, "ops": opsc});
+				cmp_view(run, l, &pm, PMMR_N, "same_object_rewind_repush", &rp, r.size(), r.root(), &r.peak_hashes(&r.peaks))
+			};
+			let rounds = pr.range(1, 4);
+			for _ in 0..rounds {
+				if !ok {
+					break;
+				}
+				let n = cur.len();
+				let keep = pr.usize_below(n);
+				let back = match pr.below(4) {
+					0 => n - keep + 1 + pr.usize_below(3), // beyond the old size
+					1 if n - keep > 1 => n - keep - 1,     // short of it
+					_ => n - keep,                         // exactly the old size
+				};
+				let tmp = RefMMR::from_elems(&cur, false);
+				let to = tmp.size_after[keep] as u64;
+				let r = pm.rewind(to, &empty);
+				if r.is_err() {
+					break;
+				}
+				cur.truncate(keep);
+				for _ in 0..back {
+					let e = fresh(&mut pr);
+					cur.push(e);
+					let _ = pm.push(&e);
+				}
+				ops.push(json!({"rewind_to_leaves": keep}));
+				ops.push(json!({"push_different": back}));
+				ops.push(json!("observe"));
+				let r = RefMMR::from_elems(&cur, false);
+				let opsc = ops.clone();
+				let rp = move || json!({"section": "C2c", "program_seed": pseed, "ops": opsc});
+				ok = cmp_view(run, l, &pm, PMMR_N, "same_object_rewind_repush", &rp, r.size(), r.root(), &r.peak_hashes(&r.peaks));
+				if ok {
+					l.c("C.same_object_repush_roots_equal_reference", 1);
+					if back == n - keep {
+						l.c("C.same_object_repush_to_the_same_size", 1);
+					}
+				}
+				l.case(&[8, (back == n - keep) as u64, r.peaks.len() as u64]);
+			}
+			ci += NTHREADS;
+		}
 	});
 	if dl.was_hit() {
 		inconc(run, "section C2: time budget hit");
@@ -2516,6 +2585,11 @@ fn main() {
 		(4 * nl - 1) as u64,
 	);
 	run.require("huge arguments compared", run.counter("B.args_done"), 20_000);
+	run.require(
+		"same PMMR object: rewind + different leaves back to the same size, observed only afterwards",
+		run.counter("C.same_object_repush_to_the_same_size"),
+		if san { 2 } else { 50 },
+	);
 	run.require(
 		"roots equal to the reference root after a push",
 		run.counter("C.roots_equal_reference"),
